@@ -34,8 +34,8 @@ func newHookCtl(rq wproto.Req) *hookCtl {
 	return h
 }
 
-func matches(st wproto.PlanStep, point, item string) bool {
-	return st.Point == point && (st.Any || st.Item == item)
+func matches(st wproto.PlanStep, point string, gid uint64, item string) bool {
+	return st.Point == point && (st.Any || st.Item == item) && (st.Gid == nil || *st.Gid == gid)
 }
 
 const gateTimeout = 2 * time.Second
@@ -47,7 +47,7 @@ func (h *hookCtl) hook(point string, gid uint64, item string) {
 		for {
 			j := -1
 			for k := h.planIdx; k < len(h.plan); k++ {
-				if matches(h.plan[k], point, item) {
+				if matches(h.plan[k], point, gid, item) {
 					j = k
 					break
 				}
